@@ -128,9 +128,74 @@ def main(p):
             svc_clients[('rest', svc)] = lib.rest(svc)
         return svc_clients[('rest', svc)]
 
+    # ------------------------------------------------------------------ paginated methods: header on every page request
+    PAGES = 3
+
+    def page_replies():
+        LR = p.cls(f'.{a["proto_package"]}.ListResp')
+        return [LR(items=[Resp(ok=True)], next_page_token=(f'tok{i + 1}' if i + 1 < PAGES else '')) for i in range(PAGES)]
+
+    def judge_pages(cell, path, entries, header_of):
+        if len(entries) != PAGES:
+            return fail(cell, path, cell['values'], 'call-count', f'{len(entries)} page requests, {PAGES} pages scripted')
+        for i, e in enumerate(entries):
+            judge(cell, f'{path}/page{i + 1}', cell['values'], header_of(e), cell['expected'])
+
+    def grpc_hdr(e):
+        hs = [v for k, v in (e['metadata'] or []) if k == HDR]
+        return hs[0] if len(hs) == 1 else (None if not hs else '&'.join(hs) + '&DUPLICATE=1')
+
+    def paged_sync(cell):
+        from google.protobuf import json_format
+        client, ch = sync_client(cell['service'])
+        forms = [('sync', dict(request=dict(cell['values'])))] + ([('sync/kwargs', dict(cell['values']))] if cell.get('kwargs') else [])
+        for path, kw in forms:
+            ch.log.clear()
+            ch.script = [r.SerializeToString() for r in page_replies()]
+            try:
+                got = list(getattr(client, cell['py'])(**kw))
+                out['calls'] += PAGES
+                if len(got) != PAGES:
+                    fail(cell, path, cell['values'], 'items', f'{len(got)} items from {PAGES} one-item pages')
+                judge_pages(cell, path, list(ch.log), grpc_hdr)
+            except BaseException as e:
+                fail(cell, path, cell['values'], 'exception', probelib.exc_info(e))
+        rc = rest_client(cell['service'])
+        seam.log.clear()
+        replies = [json_format.MessageToJson(r).encode() for r in page_replies()]
+        seam.responder = lambda req: (200, replies[min(len(seam.log) - 1, PAGES - 1)])
+        try:
+            got = list(getattr(rc, cell['py'])(request=dict(cell['values'])))
+            out['calls'] += PAGES
+            if len(got) != PAGES:
+                fail(cell, 'rest', cell['values'], 'items', f'{len(got)} items from {PAGES} one-item pages')
+            judge_pages(cell, 'rest', list(seam.log), lambda e: {k.lower(): v for k, v in e['headers'].items()}.get(HDR))
+        except BaseException as e:
+            fail(cell, 'rest', cell['values'], 'exception', probelib.exc_info(e))
+        seam.responder = lambda req: (200, b'{"ok": true}')
+
+    async def paged_async(cell, client, ch):
+        forms = [('asyncio', dict(request=dict(cell['values'])))] + ([('asyncio/kwargs', dict(cell['values']))] if cell.get('kwargs') else [])
+        for path, kw in forms:
+            ch.log.clear()
+            ch.script = [r.SerializeToString() for r in page_replies()]
+            try:
+                pager = await getattr(client, cell['py'])(**kw)
+                got = [x async for x in pager]
+                out['calls'] += PAGES
+                if len(got) != PAGES:
+                    fail(cell, path, cell['values'], 'items', f'{len(got)} items from {PAGES} one-item pages')
+                judge_pages(cell, path, list(ch.log), grpc_hdr)
+            except BaseException as e:
+                fail(cell, path, cell['values'], 'exception', probelib.exc_info(e))
+
     plans = {}
     for cell in a['cells']:
         svc = cell.get('service', 'Route')
+        if cell['kind'] == 'paged':
+            out['valuations'] += 1
+            paged_sync(cell)
+            continue
         client, ch = sync_client(svc)
         rc = rest_client(svc)
         plans[cell['id']] = list(plan(cell))
@@ -195,6 +260,9 @@ def main(p):
             if svc not in clients:
                 clients[svc] = lib.aio(svc)
             client, ch = clients[svc]
+            if cell['kind'] == 'paged':
+                await paged_async(cell, client, ch)
+                continue
             for vals, exp, rest_ok in plans[cell['id']]:
                 ch.log.clear()
                 ch.script = [[raw_reply]] if cell.get('stream') else [raw_reply]
